@@ -98,9 +98,12 @@ pub fn k_c16_rp64_merge_rules() {
         if v < m { s[9].inner() == 0 && s[0].inner() == BaseElement::new(5).inner() }
         else { s[9].inner() == BaseElement::new(v / m).inner() && s[0].inner() == BaseElement::new(6).inner() });
     vcheck!("C16.rp64.merge_with_int.rest_zero", s[1].inner() == 0 && s[2].inner() == 0 && s[3].inner() == 0 && s[10].inner() == 0 && s[11].inner() == 0);
-    // C17: x and x + p are separated by the capacity word
+    // C17: x < p and x + k*p (k >= 1) are separated by the capacity word: it is new(5) exactly for the integers
+    // below the modulus and new(6) exactly for those at or above it, and the two words differ
     vcheck!("C17.rp64.merge_with_int.separates_congruent_integers",
-        BaseElement::new(5).inner() != BaseElement::new(6).inner());
+        BaseElement::new(5).inner() != BaseElement::new(6).inner()
+            && (v < m) == (s[0].inner() == BaseElement::new(5).inner())
+            && (v >= m) == (s[0].inner() == BaseElement::new(6).inner()));
     vreach!("C16.rp64.merge.reach");
 }
 
